@@ -554,7 +554,16 @@ def shrink(failure, mod=None):
             out = impl(small)
             if _warm_failed(out):
                 return {"line": small, "impl": out, "model": None, "spec": failure["spec"], "shrunk_from": line}
-        return failure
+        # no single operation reproduces it (an earlier operation of the line filled the cell): drop operations greedily
+        ops, i, out = t[4:], 0, failure["impl"]
+        while i < len(ops) and len(ops) > 1:
+            cand = ops[:i] + ops[i + 1:]
+            o2 = impl(" ".join(t[:4] + cand))
+            if _warm_failed(o2):
+                ops, out = cand, o2
+            else:
+                i += 1
+        return {"line": " ".join(t[:4] + ops), "impl": out, "model": None, "spec": failure["spec"], "shrunk_from": line}
     if t[0] != "hist" or not failure["impl"].startswith("ok fam="):
         return failure
     fam = failure["impl"].split()[1]
